@@ -18,11 +18,15 @@ func init() {
 		tables.C01(p, r)
 		tables.PadAgree(p, r)
 		tables.TrimOne(p, r)
+		tables.PrefixAll(p, r)
+		tables.DBLinkAgree(p, r)
 	})
 	register("C16", false, func(p *core.Prog, r *core.Report, tier string) { tables.C16(p, r) })
 	register("C02", true, func(p *core.Prog, r *core.Report, tier string) {
 		effects.PureOps(9, "Insert", "Embed", "(FeatureSlice).Insert", "*.Shift", "*.Expand")(p, r)
 		conserve.C02(p, r)
+		conserve.DelegateComplemented(p, r, "Shift", "Expand")
+		conserve.PartialCarry(p, r, "Shift", "Expand")
 		siblings.Shift(p, r)
 		siblings.Expand(p, r)
 		tables.OriginLen(p, r)
@@ -30,9 +34,11 @@ func init() {
 	register("C03", true, func(p *core.Prog, r *core.Report, tier string) {
 		effects.PureOps(11, "Delete", "Erase", "Slice", "(FeatureSlice).Filter", "(GenBankFields).Slice", "*.Shift", "*.Expand")(p, r)
 		conserve.C03(p, r)
+		conserve.DelegateComplemented(p, r, "Expand")
 		conserve.Window(p, r)
 		conserve.EraseOrder(p, r)
 		conserve.NegIndex(p, r)
+		conserve.WrapCond(p, r)
 		r.Rule("RANGE-ELEM", "inside a loop over a collection A the loop's index is used to index A itself or a collection allocated with len(A), never another collection (gts.Slice, gts.Delete, seqio.GenBankFields.Slice)", 6)
 		conserve.RangeElem(p, r, [][2]string{{core.PkgGts, "Slice"}, {core.PkgGts, "Delete"}, {core.PkgSeqio, "GenBankFields.Slice"}})
 		orders.Intervals(p, r)
@@ -45,7 +51,9 @@ func init() {
 		r.NotDecided = append(r.NotDecided, "the merge loop of Minimize", "abutment handling", "gap enumeration of invertSegments", "the circular merge of InvertCircular")
 		r.Assumptions = append(r.Assumptions, "sort.Sort sorts correctly when given a strict weak order")
 	})
-	register("C19", false, func(p *core.Prog, r *core.Report, tier string) {
+	register("C19", true, func(p *core.Prog, r *core.Report, tier string) {
+		effects.PureOps(2, "(FeatureSlice).Insert", "(FeatureSlice).Filter")(p, r)
+		conserve.EscAutomaton(p, r)
 		orders.Compare3(p, r)
 		conserve.FilterRule(p, r)
 		conserve.QualifierRules(p, r)
@@ -55,6 +63,9 @@ func init() {
 	register("C04", true, func(p *core.Prog, r *core.Report, tier string) {
 		effects.PureOps(8, "Rotate", "(FeatureSlice).Insert", "*.Shift", "*.Normalize")(p, r)
 		conserve.C04(p, r)
+		conserve.DelegateComplemented(p, r, "Shift", "Expand", "Normalize")
+		conserve.PartialCarry(p, r, "Normalize", "Shift", "Expand")
+		conserve.PushComplement(p, r)
 		conserve.ModNormalise(p, r)
 		conserve.MergeRanged(p, r)
 		siblings.Normalize(p, r)
@@ -63,23 +74,33 @@ func init() {
 		effects.PureOps(10, "Reverse", "Complement", "Transcribe", "*.Reverse", "*.Complement")(p, r)
 		conserve.C05(p, r)
 		conserve.LocateRC(p, r)
+		conserve.DelegateComplemented(p, r, "Reverse")
+		conserve.PartialCarry(p, r, "Reverse")
 		siblings.Reverse(p, r)
 		tables.Alphabet(p, r)
 	})
 	register("C10", true, func(p *core.Prog, r *core.Report, tier string) {
 		effects.PureOps(12, "Insert", "Embed", "Delete", "Slice", "Concat", "(FeatureSlice).Insert", "*.Shift", "*.Expand")(p, r)
 		conserve.C10(p, r)
+		conserve.DelegateComplemented(p, r, "Shift", "Expand")
 		siblings.Shift(p, r)
 		siblings.Expand(p, r)
 	})
 	register("C08", false, func(p *core.Prog, r *core.Report, tier string) { conserve.C08(p, r) })
-	register("C17", false, func(p *core.Prog, r *core.Report, tier string) { tables.C17(p, r) })
-	register("C06", false, func(p *core.Prog, r *core.Report, tier string) {
+	register("C17", false, func(p *core.Prog, r *core.Report, tier string) {
+		tables.C17(p, r)
+		tables.C16(p, r) // conversion to FASTA decodes the ORIGIN block: its layout rules are necessary for "keeps residues"
+	})
+	register("C06", true, func(p *core.Prog, r *core.Report, tier string) {
+		effects.PureOps(2, "Join", "Order")(p, r)
 		conserve.PushRules(p, r)
+		conserve.PushComplement(p, r)
 		conserve.PrintParse(p, r)
+		conserve.LocGrammar(p, r)
 	})
 	register("C15", false, func(p *core.Prog, r *core.Report, tier string) {
 		conserve.C15(p, r)
+		conserve.LocatorFresh(p, r)
 		orders.SegmentOrder(p, r)
 		orders.RegionAlgebra(p, r, 2)
 	})
@@ -94,6 +115,7 @@ func init() {
 		traps.RepairNoPanic(p, r)
 		conserve.RepairRules(p, r)
 		conserve.MergeRanged(p, r)
+		conserve.ConcatOffset(p, r)
 		r.NotDecided = append(r.NotDecided, "that a cut feature is restored to its original location", "idempotence", "which abutting fragments Push merges (partial3 meets partial5)", "that the residues covered by each class are unchanged")
 	})
 }
